@@ -26,8 +26,9 @@ Candles == CandlesOn(Px)
 VARIABLES mins,     \* the chunk as passed: mins[1] already gap-normalised, the others raw
           k,        \* minute being matched (1..ChunkLen)
           kDone,    \* GHOST: minutes completely matched
-          temp, ords, cands, cursor, pc, nreact
-vars == <<mins, k, kDone, temp, ords, cands, cursor, pc, nreact>>
+          temp, ords, cands, cursor, pc, nreact,
+          cur       \* position.current_price as set by the loop at the latest fill
+vars == <<mins, k, kDone, temp, ords, cands, cursor, pc, nreact, cur>>
 Active(i) == ords[i].st = "A"
 Idx == DOMAIN ords
 Chunk == Agg(mins)
@@ -69,7 +70,7 @@ SelectOne(os, cd) == LET ex == Executing(os, cd) IN IF Len(ex) > 1 THEN SortOne(
 
 Init == /\ mins \in [1..ChunkLen -> Candles]
         /\ \E n \in 1..MaxOrders : ords \in [1..n -> [p : Px, st : {"A"}, born : {0}, at : {0}]]
-        /\ k = 0 /\ kDone = 0 /\ temp = mins[1] /\ cands = <<>> /\ cursor = 0 /\ pc = "select" /\ nreact = 0
+        /\ k = 0 /\ kDone = 0 /\ temp = mins[1] /\ cands = <<>> /\ cursor = 0 /\ pc = "select" /\ nreact = 0 /\ cur = 0
 
 StartMinute(os, i) == IF Variant = "fixed" THEN SelectOne(os, Ext(i)) ELSE cands
 Begin == /\ pc = "select"
@@ -79,31 +80,36 @@ Begin == /\ pc = "select"
             ELSE /\ cands' = (IF Variant = "fixed" THEN SelectOne(ords, Ext(1))
                               ELSE IF Len(ex) > 1 THEN SortMulti(ords, ex, 1, <<>>) ELSE ex)
                  /\ k' = 1 /\ temp' = Ext(1) /\ cursor' = 1 /\ pc' = "loop" /\ UNCHANGED kDone
-         /\ UNCHANGED <<mins, ords, nreact>>
+         /\ UNCHANGED <<mins, ords, nreact, cur>>
 
 TryNext == /\ pc = "loop" /\ cursor <= Len(cands)
            /\ LET i == cands[cursor] IN ~Active(i) \/ ~Includes(temp, ords[i].p)
            /\ cursor' = cursor + 1
-           /\ UNCHANGED <<mins, k, kDone, temp, ords, cands, pc, nreact>>
+           /\ UNCHANGED <<mins, k, kDone, temp, ords, cands, pc, nreact, cur>>
 
 Fill == /\ pc = "loop" /\ cursor <= Len(cands)
         /\ LET i == cands[cursor] IN
            /\ Active(i) /\ Includes(temp, ords[i].p)
            /\ temp' = Split(temp, ords[i].p)[2]
            /\ ords' = [ords EXCEPT ![i].st = "E", ![i].at = k]
+           /\ cur' = IF ords[i].p = temp.o THEN temp.c ELSE ords[i].p
         /\ pc' = "react"
         /\ UNCHANGED <<mins, k, kDone, cands, cursor, nreact>>
 
 ReactSubmit(p) == /\ pc = "react" /\ nreact < MaxReact
                   /\ ords' = Append(ords, [p |-> p, st |-> "A", born |-> k, at |-> 0])
-                  /\ nreact' = nreact + 1 /\ UNCHANGED <<mins, k, kDone, temp, cands, cursor, pc>>
+                  /\ nreact' = nreact + 1 /\ UNCHANGED <<mins, k, kDone, temp, cands, cursor, pc, cur>>
+\* a hook submits a MARKET order: ACTIVE in the store at position.current_price, matched like a resting order
+ReactMarket == /\ pc = "react" /\ nreact < MaxReact
+               /\ ords' = Append(ords, [p |-> cur, st |-> "A", born |-> k, at |-> 0])
+               /\ nreact' = nreact + 1 /\ UNCHANGED <<mins, k, kDone, temp, cands, cursor, pc, cur>>
 ReactCancel(j) == /\ pc = "react" /\ nreact < MaxReact /\ Active(j)
                   /\ ords' = [ords EXCEPT ![j].st = "C", ![j].at = k]
-                  /\ nreact' = nreact + 1 /\ UNCHANGED <<mins, k, kDone, temp, cands, cursor, pc>>
+                  /\ nreact' = nreact + 1 /\ UNCHANGED <<mins, k, kDone, temp, cands, cursor, pc, cur>>
 Reselect == /\ pc = "react"
             /\ cands' = (IF Variant = "fixed" THEN SelectOne(ords, temp) ELSE Executing(ords, Chunk))
             /\ cursor' = 1 /\ pc' = "loop"
-            /\ UNCHANGED <<mins, k, kDone, temp, ords, nreact>>
+            /\ UNCHANGED <<mins, k, kDone, temp, ords, nreact, cur>>
 
 EndMinute == /\ pc = "loop" /\ cursor > Len(cands)
              /\ kDone' = k
@@ -111,9 +117,9 @@ EndMinute == /\ pc = "loop" /\ cursor > Len(cands)
                 THEN /\ k' = k + 1 /\ temp' = Ext(k + 1) /\ cursor' = 1 /\ cands' = StartMinute(ords, k + 1)
                      /\ UNCHANGED pc
                 ELSE /\ pc' = "done" /\ UNCHANGED <<k, temp, cursor, cands>>
-             /\ UNCHANGED <<mins, ords, nreact>>
+             /\ UNCHANGED <<mins, ords, nreact, cur>>
 
-Next == Begin \/ TryNext \/ Fill \/ (\E p \in Px : ReactSubmit(p)) \/ (\E j \in Idx : ReactCancel(j)) \/ Reselect
+Next == Begin \/ TryNext \/ Fill \/ (\E p \in Px : ReactSubmit(p)) \/ ReactMarket \/ (\E j \in Idx : ReactCancel(j)) \/ Reselect
         \/ EndMinute
 Spec == Init /\ [][Next]_vars
 
